@@ -1,6 +1,11 @@
 import Lattigo.Proofs.ScalingRefine
 import Lattigo.Proofs.BasisExtPrimes
 import Lattigo.Proofs.DecompInt
+import Lattigo.Proofs.ScalingNTT
+import Lattigo.Proofs.BasisExtLimb
+import Lattigo.Proofs.DecompLimb
+import Lattigo.Proofs.BasisExtNTT
+import Lattigo.Proofs.DecompNTT
 
 /-!
 # C02 — RNS basis extension, rescaling and gadget decomposition match integer division
@@ -23,11 +28,13 @@ Which limb-level function each integer-level theorem specifies, and what is PROV
 | `Ring.DivFloorByLastModulus` | `Scaling.divFloor` | `divFloor_crt` | **proved**: `divFloor_limbs` (every limb = ⌊x/q_ℓ⌋ mod q_i, from `MRed_spec`, `MForm_spec`, Fermat) |
 | `Ring.DivRoundByLastModulus` | `Scaling.divRound` | `divRound_crt`, `round_half_up` | **proved**: `divRound_limbs` (before repair C02-1 of /repo the function also rewrote p0; now it does not, probe `div_input_unchanged`) |
 | `Ring.Div{Floor,Round}ByLastModulusMany` | `Scaling.divFloorMany/divRoundMany` | `divFloorMany_int`, `divRoundMany_int` | **proved**: `divFloorMany_limbs`, `divRoundMany_limbs` + `roundSeq_eq` |
-| the four `…NTT` variants | `Scaling.div*NTT` | same | GAP: = coefficient variants conjugated by the NTT; needs C01's NTT correctness theorem (`INTT∘NTT = id`, linearity) which is not available as a lemma; tie only |
-| `ModUpExact`, `BasisExtender.ModUpQtoP/PtoQ` | `BasisExt.modUpExact/modUp` | `hps_sum`, `modUp_exact`, `modUp_off_by_one_*`, `modUp_centered_exact` | GAP (named): the Montgomery bookkeeping of `genModUpConstants`/`reconstruct`/`multSum` (128-bit accumulate + lazy reduction ≡ Σ y_i·(Q/q_i) + v·(−Q) mod p) is not proved, and the IEEE-754 computation of `v` is a hypothesis; tie is limb-exact incl. the Float index |
-| `BasisExtender.ModDownQPtoQ{,NTT}/QPtoP` | `BasisExt.modDown*` | `modDown_floor/round/err` | GAP as above (built on ModUp) |
-| `Decomposer.DecomposeAndSplit` | `Decomp.decomposeAndSplit` | `rns_digits_recombine` | GAP as above for the HPS branch; `decompose_noP_counterexample` is about the limb-level twin itself |
-| `rlwe.Evaluator.DecomposeNTT` | `Decomp.decomposeNTT` | (digits of `DecomposeAndSplit` moved to the NTT domain) | tie only (needs C01's NTT theorem) |
+| the four `…NTT` variants | `Scaling.div*NTT` | same | **proved** (§1b): `divFloorNTT_limbs`, `divRoundNTT_limbs` (ring degree `N ≥ 16`), `divFloorManyNTT_limbs`, `divRoundManyNTT_limbs`: rows of the result = bit-exact forward NTT of the residues of the quotient (from C01's `inttStd_nttStd`, a no-wrap theorem for `NTTLazy` of ring `q_i` on residues modulo the LARGER `q_ℓ` (`nttCoreLazy_big`), linearity of the exact network).  **FINDING**: `N ≥ 16` is forced — for `N = 8` `DivFloorByLastModulusNTT` is off by one (`divFloorNTT_small_ring_counterexample`, reproduced on /repo) |
+| `ModUpExact` | `BasisExt.modUpExact` (`genModUpConstants`, `reconstruct`, `multSum`) | `hps_sum`, `modUp_exact`, `modUp_off_by_one_*` | **proved** (§2b) up to the NAMED IEEE hypothesis: `modUpExact_limbs` (every limb `≡ Σ y_i·(Q/q_i) − v·Q (mod p_j)` with the code's own `y_i = hpsY` and index `v = fidx`, and `< (k+2)·p_j`, `k = ⌈Σ q_i/2^64⌉`: `< 3p_j` for ≤ 8 moduli below `2^61`: `modUpExact_limbs_3p`), `modUpExact_exact` (`v` exact ⇒ limb `≡ x`; `v` off by one ⇒ `≡ x ∓ Q`).  The Montgomery bookkeeping (`qoverqiinvqi`, `qoverqimodp`, `vtimesqmodp`, 128-bit accumulation, lazy reduction, uint64 wrap) is fully proved; what remains a hypothesis is only the value of the float index: `v ≤ #moduli` (validity of the table lookup) and `v = ⌊Σ y_i/q_i⌋` (exactness; `modUp_centered_exact` gives the rational condition) |
+| `BasisExtender.ModUpQtoP/PtoQ` | `BasisExt.modUp` | `modUp_centered_exact` | **proved** (§2b), same named hypothesis: `modUp_limbs` (limb `≡ centred [x]_Q + (hpsV − v)·Q`, `< (k+2)·p`) |
+| `BasisExtender.ModDownQPtoQ/QPtoP` | `BasisExt.modDownQPtoQ/QPtoP` | `modDown_floor/round/err` | **proved** (§2b), same named hypothesis: `modDownQPtoQ_limbs`, `modDownQPtoP_limbs` (limb `< q_i` and `≡ ⌊(x + ⌊P/2⌋)/P⌋ − δ`, `δ = hpsV − v`, through `modDown_err`) |
+| `BasisExtender.ModDownQPtoQNTT` | `BasisExt.modDownQPtoQNTT` | same | **proved** (§2b, `N ≥ 16`): `modDownQPtoQNTT_eq` — on NTT-domain inputs every output row is the bit-exact forward NTT of the corresponding row of `modDownQPtoQ` on the coefficient-domain rows (no hypothesis on the IEEE index), so `modDownQPtoQ_limbs` describes `INTT` of the output (from `inttStd_nttStd`, `modUp_row_lt`: buffer limbs `< (k+2)q_i` for EVERY index, `nttCoreLazy_big`, `fwdZ_zipWith_lin`, `modDownLane_spec`).  `N = 8`: not covered (`INTTLazy` is lazy there; `reconstructRNS` reduces its input, so no defect is expected; tie only) |
+| `Decomposer.DecomposeAndSplit` | `Decomp.decomposeAndSplit` | `rns_digits_recombine` | **proved** (§3b): `decompose_single_limbs` (copy branch: limb `≡ digitA q_d [x]_{q_d}`, the code's centring), `decompose_multi_limbs` (HPS branch, named IEEE hypothesis: limb `≡ centeredRep Q_d x + δ·Q_d`, `< (k+2)·m`), `decompose_digits_recombine(_single)` (these digit values satisfy the hypothesis of `rns_digits_recombine`); `decompose_noP_counterexample` is about the limb-level twin itself |
+| `rlwe.Evaluator.DecomposeNTT` | `Decomp.decomposeNTT` | (digits of `DecomposeAndSplit` moved to the NTT domain) | **proved** (§3b, `N ≥ 16`): `decomposeNTT_some` (succeeds when `DecomposeAndSplit` does; digit `d` = `dnOut` of its output), `decomposeNTT_rows` (rows outside the digit's own moduli = reduced forward NTT of the residues `limb mod q` of the unreduced limbs `DecomposeAndSplit` wrote, via `nttStd_unreduced`; rows inside = the NTT-domain input rows), ranges from `decompose_multi_lt` / `decompose_single_limbs`.  The composition into ONE statement "`INTT` of every row ≡ digit value" is immediate from these but not spelled out |
 | `ring.MaskVec` | `Decomp.maskVec` | `pow2_digits_recombine`, `pow2_digit_lt` | **proved**: `maskVec_eq` (definitional) |
 | `ExtendBasisSmallNormAndCenter` | `BasisExt.extendSmallNorm` | `extendSmallNorm` | **proved** on the limb function itself (`extendSmallLimb` IS the limb code) |
 -/
@@ -141,6 +148,97 @@ example : Chain [97, 193, 257] :=
 example : divFloor [97, 193, 257] 2 [[1234567 % 97], [1234567 % 193], [1234567 % 257]]
     = [[1234567 / 257 % 97], [1234567 / 257 % 193]] := by decide +kernel
 
+/-! ## 1b. Division by the last modulus, NTT-domain variants -/
+
+/-- **Refinement, `DivFloorByLastModulusNTT`** (`N = 2^K ≥ 16`): if row `i ≤ level` of `p0` is the bit-exact
+forward NTT (`NTT.nttStd`, tables `Valid`) of the residues `X mod q_i`, then row `i < level` of the result is, limb for
+limb, the forward NTT of `⌊x / q_level⌋ mod q_i`.  Uses `inttStd_nttStd`, the no-wrap theorem `nttCoreLazy_big`
+for `NTTLazy` of ring `q_i` on residues modulo the larger `q_level`, linearity of the exact network, and the
+coefficient-domain limb theorem.  `4 ≤ K` is forced: `divFloorNTT_small_ring_counterexample`. -/
+theorem divFloorNTT_limbs (T : Tabs) (qs : List Nat) (level K : Nat) (hC : Chain qs) (hK : 4 ≤ K)
+    (hl : level < qs.length)
+    (hT : ∀ i, i ≤ level → NTT.Valid (tab T i) K ∧ (tab T i).q = modulus qs i)
+    (p0 : Rows) (X : List Nat) (hX : X.length = 2 ^ K)
+    (hrows : ∀ i, i ≤ level → row p0 i = NTT.nttStd (tab T i) (X.map (· % modulus qs i))) :
+    divFloorNTT T qs level p0 = (List.range level).map fun i =>
+      NTT.nttStd (tab T i) (X.map fun x => (x / modulus qs level) % modulus qs i) :=
+  Scaling.divFloorNTT_limbs T qs level K hC hK hl hT p0 X hX hrows
+
+/-- **Refinement, `DivRoundByLastModulusNTT`** (`N = 2^K ≥ 16`): rows of the result = forward NTT of
+`⌊(x + (q_level−1)/2) / q_level⌋ mod q_i`.  (Whether `N ≥ 16` is NEEDED here is open: no failing input was found
+for `N = 8` — `AddScalar`'s conditional subtraction absorbs the lazy value `q_ℓ` — but the proof uses
+`INTTLazy = INTT`, which holds for `N ≥ 16` only.) -/
+theorem divRoundNTT_limbs (T : Tabs) (qs : List Nat) (level K : Nat) (hC : Chain qs) (hK : 4 ≤ K)
+    (hl : level < qs.length)
+    (hT : ∀ i, i ≤ level → NTT.Valid (tab T i) K ∧ (tab T i).q = modulus qs i)
+    (p0 : Rows) (X : List Nat) (hX : X.length = 2 ^ K)
+    (hrows : ∀ i, i ≤ level → row p0 i = NTT.nttStd (tab T i) (X.map (· % modulus qs i))) :
+    divRoundNTT T qs level p0 = (List.range level).map fun i =>
+      NTT.nttStd (tab T i)
+        (X.map fun x => ((x + half (modulus qs level)) / modulus qs level) % modulus qs i) :=
+  Scaling.divRoundNTT_limbs T qs level K hC hK hl hT p0 X hX hrows
+
+/-- **Refinement, `DivFloorByLastModulusManyNTT`** (any `N = 2^K`, every `nbRescales ≤ level`): no panic; row
+`i ≤ level − nb` of the result = forward NTT of `⌊x / (q_level ⋯ q_{level−nb+1})⌋ mod q_i`. -/
+theorem divFloorManyNTT_limbs (T : Tabs) (qs : List Nat) (level K nb : Nat) (hC : Chain qs)
+    (hl : level < qs.length) (hnb : nb ≤ level)
+    (hT : ∀ i, i ≤ level → NTT.Valid (tab T i) K ∧ (tab T i).q = modulus qs i)
+    (p0 : Rows) (X : List Nat) (hX : X.length = 2 ^ K)
+    (hrows : ∀ i, i ≤ level → row p0 i = NTT.nttStd (tab T i) (X.map (· % modulus qs i))) :
+    ∃ p1, divFloorManyNTT T qs level nb p0 = some p1 ∧ ∀ i, i ≤ level - nb →
+      row p1 i = NTT.nttStd (tab T i) (X.map fun x => (x / lastProd qs level nb) % modulus qs i) :=
+  Scaling.divFloorManyNTT_limbs T qs level K nb hC hl hnb hT p0 X hX hrows
+
+/-- **Refinement, `DivRoundByLastModulusManyNTT`** (every `nbRescales ≤ level`; only the branch `nbRescales = 1`,
+which calls `DivRoundByLastModulusNTT`, needs `N ≥ 16`): rows = forward NTT of the `nb`-fold round-half-up
+quotient (`roundSeq`, = round-half-up by the product: `roundSeq_eq`). -/
+theorem divRoundManyNTT_limbs (T : Tabs) (qs : List Nat) (level K nb : Nat) (hC : Chain qs)
+    (hK : nb = 1 → 4 ≤ K) (hl : level < qs.length) (hnb : nb ≤ level)
+    (hT : ∀ i, i ≤ level → NTT.Valid (tab T i) K ∧ (tab T i).q = modulus qs i)
+    (p0 : Rows) (X : List Nat) (hX : X.length = 2 ^ K)
+    (hrows : ∀ i, i ≤ level → row p0 i = NTT.nttStd (tab T i) (X.map (· % modulus qs i))) :
+    ∃ p1, divRoundManyNTT T qs level nb p0 = some p1 ∧ ∀ i, i ≤ level - nb →
+      row p1 i = NTT.nttStd (tab T i) (X.map fun x => roundSeq qs level nb x % modulus qs i) :=
+  Scaling.divRoundManyNTT_limbs T qs level K nb hC hK hl hnb hT p0 X hX hrows
+
+/-- coefficient-domain reading: `INTT_i` of row `i < level` of `DivFloorByLastModulusNTT` is `⌊x/q_level⌋ mod q_i`
+(same for the other three: `Scaling.divRoundNTT_coeffs`, `divFloorManyNTT_coeffs`, `divRoundManyNTT_coeffs`). -/
+theorem divFloorNTT_coeffs (T : Tabs) (qs : List Nat) (level K : Nat) (hC : Chain qs) (hK : 4 ≤ K)
+    (hl : level < qs.length)
+    (hT : ∀ i, i ≤ level → NTT.Valid (tab T i) K ∧ (tab T i).q = modulus qs i)
+    (p0 : Rows) (X : List Nat) (hX : X.length = 2 ^ K)
+    (hrows : ∀ i, i ≤ level → row p0 i = NTT.nttStd (tab T i) (X.map (· % modulus qs i)))
+    (i : Nat) (hi : i < level) :
+    NTT.inttStd (tab T i) (row (divFloorNTT T qs level p0) i)
+      = X.map fun x => (x / modulus qs level) % modulus qs i :=
+  Scaling.divFloorNTT_coeffs T qs level K hC hK hl hT p0 X hX hrows i hi
+
+/-- **`N ≥ 16` is forced (FINDING, reproduced on /repo).**  For `N = 8` — the smallest degree `ring.NewRing`
+accepts — `INTTStandardLazy` (ring/ntt.go:197-206) multiplies by `N⁻¹` with `MRedLazy` (range `[1, 2q]`, in particular
+`0 ↦ q_ℓ`), for `N ≥ 16` with `mulscalarmontgomeryvec` = `MRed` (reduced).  `DivFloorByLastModulusNTT`
+(ring/scaling.go:14) moves that lazy value to the other moduli: on the ZERO polynomial it returns `−1 mod q_i` in
+every coefficient (⌊x/q_ℓ⌋ − 1 whenever the lazy value is `≥ q_ℓ`).  All other hypotheses of `divFloorNTT_limbs`
+hold for this input. -/
+theorem divFloorNTT_small_ring_counterexample :
+    let T8 := mkTabs 8 [97, 193] [5, 5]
+    let qs := [97, 193]
+    let X := List.replicate 8 0
+    let p0 : Rows := [NTT.nttStd (tab T8 0) (List.replicate 8 0), NTT.nttStd (tab T8 1) (List.replicate 8 0)]
+    Chain qs ∧ 1 < qs.length
+    ∧ (∀ i, i ≤ 1 → NTT.Valid (tab T8 i) 3 ∧ (tab T8 i).q = modulus qs i)
+    ∧ X.length = 2 ^ 3
+    ∧ (∀ i, i ≤ 1 → row p0 i = NTT.nttStd (tab T8 i) (X.map (· % modulus qs i)))
+    ∧ (divFloorNTT T8 qs 1 p0).map (NTT.inttStd (tab T8 0)) = [List.replicate 8 96]
+    ∧ divFloorNTT T8 qs 1 p0 ≠ (List.range 1).map fun i =>
+        NTT.nttStd (tab T8 i) (X.map fun x => (x / modulus qs 1) % modulus qs i) :=
+  Scaling.divFloorNTT_small_ring_counterexample
+
+-- test (non-vacuity): N = 16, qs = [97, 193], level 1, 16 coefficients 1000·j + 7
+example : divFloorNTT exT16 [97, 193] 1 exP0 = [NTT.nttStd (tab exT16 0) (exX.map fun x => (x / 193) % 97)] :=
+  divFloorNTT_limbs exT16 [97, 193] 1 4 chain_97_193 (by decide) (by decide) tabs16_ok exP0 exX rfl exP0_rows
+example : divRoundNTT exT16 [97, 193] 1 exP0 = [NTT.nttStd (tab exT16 0) (exX.map fun x => ((x + 96) / 193) % 97)] :=
+  divRoundNTT_limbs exT16 [97, 193] 1 4 chain_97_193 (by decide) (by decide) tabs16_ok exP0 exX rfl exP0_rows
+
 /-! ## 2. Basis extension (HPS), ModDown, small-norm extension
 
 Notation of the theorems: `qs` the source chain, `Q = prodN qs`, `x < Q` the (already shifted by `⌊Q/2⌋`, see
@@ -229,6 +327,210 @@ theorem extendSmallNorm_large_counterexample :
     ((extendSmallLimb 97 17 60 : Nat) : Int) % (17 : Nat) ≠ centerInt 97 60 % (17 : Nat) :=
   extendSmall_wraps
 
+/-! ### 2b. Limb level ⊑ integer level for `ModUpExact`, `ModUpQtoP/PtoQ`, `ModDownQPtoQ/QPtoP`
+
+`Q`, `P` are the full chains of the two rings; the source chain is `qs = Q[:n]` (`n = len(p1)` resp. `levelQ+1`), an
+admissible `Chain` (distinct odd primes below `2^61`) with `Σ q_i ≤ k·2^64` (`k = 1` for `n ≤ 8`); targets are odd
+primes with `(k+2)·p ≤ 2^64` (`Target P k`).  `fidx Q y` is the correction index AS THE CODE COMPUTES IT (IEEE-754,
+`BasisExt.fidx`, the very expression of the twin); it is never analysed: every statement is conditional on the
+named hypothesis `fidx … ≤ n` (the table lookup `vtimesqmodp[v]` is in range; true of every float sum of `n`
+terms `≤ 1`) and exactness statements on `fidx … = hpsV …`. -/
+
+/-- **`multSum`** (one lane, any index `v ≤ #Q`): `≡ hpsOut` and `< (k+2)·p`. -/
+theorem multSum_limb (Q P : List Nat) (hC : Chain Q) (hne : Q ≠ []) (j : Nat) (hj : j < P.length)
+    (hp : (P.getD j 0).Prime) (hodd : P.getD j 0 % 2 = 1) (k : Nat) (hk : Q.sum ≤ k * W)
+    (hkp : (k + 2) * P.getD j 0 ≤ W) (ys : List Nat) (hlen : ys.length = Q.length)
+    (hys : ∀ i, i < Q.length → ys.getD i 0 < Q.getD i 0) (v : Nat) (hv : v ≤ Q.length) :
+    multSum ys v (P.getD j 0) (Gen.GenMRedConstant (P.getD j 0)) (genModUpConstants Q P).vtimesqmodp[j]!
+        (genModUpConstants Q P).qoverqimodp[j]! % P.getD j 0 = hpsOut Q ys v (P.getD j 0)
+    ∧ multSum ys v (P.getD j 0) (Gen.GenMRedConstant (P.getD j 0)) (genModUpConstants Q P).vtimesqmodp[j]!
+        (genModUpConstants Q P).qoverqimodp[j]! < (k + 2) * P.getD j 0 :=
+  multSum_hps Q P hC hne j hj hp hodd k hk hkp ys hlen hys v hv
+
+/-- **`reconstructRNS`** (one lane): the `y_i` of the code ARE `hpsY`, the index is `fidx`. -/
+theorem reconstruct_limb (Q P : List Nat) (col : List Nat) (hn : col.length ≤ Q.length)
+    (hC : Chain (Q.take col.length)) (hcol : ∀ x ∈ col, x < W) :
+    reconstruct Q (Q.map Gen.GenMRedConstant) (genModUpConstants (Q.take col.length) P) col
+      = (hpsY (Q.take col.length) col, fidx Q (hpsY (Q.take col.length) col)) :=
+  reconstruct_eq Q P col hn hC hcol
+
+/-- **`ModUpExact`, every limb**: `≡ Σ y_i·(Q/q_i) + v·(p_j − Q mod p_j) (mod p_j)` with `y = hpsY`, `v = fidx`,
+and `< (k+2)·p_j`. -/
+theorem modUpExact_limbs (Q P : List Nat) (levelP : Nat) (hlP : levelP < P.length) (p1 : Rows)
+    (hpos : 0 < p1.length) (hn : p1.length ≤ Q.length) (hC : Chain (Q.take p1.length)) (k : Nat)
+    (hk : (Q.take p1.length).sum ≤ k * W) (hT : Target P k) (hW : ∀ r ∈ p1, ∀ x ∈ r, x < W)
+    (j : Nat) (hj : j ≤ levelP) :
+    List.Forall₂ (fun col out =>
+        fidx Q (hpsY (Q.take p1.length) col) ≤ p1.length →
+          out % P.getD j 0
+              = hpsOut (Q.take p1.length) (hpsY (Q.take p1.length) col)
+                  (fidx Q (hpsY (Q.take p1.length) col)) (P.getD j 0)
+            ∧ out < (k + 2) * P.getD j 0)
+      (transpose p1) (row (modUpExact Q P (genModUpConstants (Q.take p1.length) P) levelP p1) j) :=
+  BasisExt.modUpExact_limbs Q P levelP hlP p1 hpos hn hC k hk hT hW j hj
+
+/-- the documented range: at most 8 source moduli below `2^61` ⇒ every limb `< 3·p_j`
+(`Target P 1`: `3p ≤ 2^64`). -/
+theorem modUpExact_limbs_3p (Q P : List Nat) (levelP : Nat) (hlP : levelP < P.length) (p1 : Rows)
+    (hpos : 0 < p1.length) (hn : p1.length ≤ Q.length) (h8 : p1.length ≤ 8) (hC : Chain (Q.take p1.length))
+    (hT : Target P 1) (hW : ∀ r ∈ p1, ∀ x ∈ r, x < W) (j : Nat) (hj : j ≤ levelP) :
+    List.Forall₂ (fun col out =>
+        fidx Q (hpsY (Q.take p1.length) col) ≤ p1.length →
+          out % P.getD j 0
+              = hpsOut (Q.take p1.length) (hpsY (Q.take p1.length) col)
+                  (fidx Q (hpsY (Q.take p1.length) col)) (P.getD j 0)
+            ∧ out < 3 * P.getD j 0)
+      (transpose p1) (row (modUpExact Q P (genModUpConstants (Q.take p1.length) P) levelP p1) j) :=
+  BasisExt.modUpExact_limbs Q P levelP hlP p1 hpos hn hC 1
+    (sum_le_W _ hC.small (by rw [List.length_take]; omega)) hT hW j hj
+
+/-- **`ModUpExact` with the exact / off-by-one index**: lanes = residues of `x < Qb`; `v` exact ⇒ `≡ x (mod p_j)`;
+`v = hpsV + 1` ⇒ `≡ x − Qb`; `v + 1 = hpsV` ⇒ `≡ x + Qb`. -/
+theorem modUpExact_exact (Q P : List Nat) (levelP : Nat) (hlP : levelP < P.length) (p1 : Rows)
+    (hpos : 0 < p1.length) (hn : p1.length ≤ Q.length) (hC : Chain (Q.take p1.length)) (k : Nat)
+    (hk : (Q.take p1.length).sum ≤ k * W) (hT : Target P k) (hW : ∀ r ∈ p1, ∀ x ∈ r, x < W)
+    (xs : List Nat) (hxs : ∀ x ∈ xs, x < prodN (Q.take p1.length))
+    (hcols : transpose p1 = xs.map (residues (Q.take p1.length))) (j : Nat) (hj : j ≤ levelP) :
+    List.Forall₂ (fun x out =>
+        (fidx Q (hpsY (Q.take p1.length) (residues (Q.take p1.length) x))
+            = hpsV (Q.take p1.length) (hpsY (Q.take p1.length) (residues (Q.take p1.length) x)) →
+          out % P.getD j 0 = x % P.getD j 0 ∧ out < (k + 2) * P.getD j 0)
+        ∧ (fidx Q (hpsY (Q.take p1.length) (residues (Q.take p1.length) x))
+            = hpsV (Q.take p1.length) (hpsY (Q.take p1.length) (residues (Q.take p1.length) x)) + 1 →
+          (out + prodN (Q.take p1.length)) % P.getD j 0 = x % P.getD j 0 ∧ out < (k + 2) * P.getD j 0)
+        ∧ (fidx Q (hpsY (Q.take p1.length) (residues (Q.take p1.length) x)) + 1
+            = hpsV (Q.take p1.length) (hpsY (Q.take p1.length) (residues (Q.take p1.length) x)) →
+          out % P.getD j 0 = (x + prodN (Q.take p1.length)) % P.getD j 0 ∧ out < (k + 2) * P.getD j 0))
+      xs (row (modUpExact Q P (genModUpConstants (Q.take p1.length) P) levelP p1) j) :=
+  BasisExt.modUpExact_exact Q P levelP hlP p1 hpos hn hC k hk hT hW xs hxs hcols j hj
+
+/-- **`ModUpQtoP` / `ModUpPtoQ`** (`modUp P Q` is `ModUpPtoQ`): `X` the integer coefficients (`row polQ i = X mod q_i`),
+`Qb = q_0⋯q_levelQ`.  Every limb of target row `j` is `≡ centeredRep Qb x + (hpsV − v)·Qb (mod p_j)` — the centred
+representative of `[x]_Qb` plus `δ = hpsV − v` multiples of `Qb` — and `< (k+2)·p_j`. -/
+theorem modUp_limbs (Q P : List Nat) (levelQ levelP : Nat) (hlQ : levelQ < Q.length) (hlP : levelP < P.length)
+    (hC : Chain (Q.take (levelQ + 1))) (k : Nat) (hk : (Q.take (levelQ + 1)).sum ≤ k * W)
+    (hT : Target P (k + 1)) (polQ : Rows) (X : List Nat)
+    (hrows : ∀ i, i ≤ levelQ → row polQ i = X.map (· % Q.getD i 0)) (j : Nat) (hj : j ≤ levelP) :
+    List.Forall₂ (fun x out =>
+        fidx Q (hpsY (Q.take (levelQ + 1)) (residues (Q.take (levelQ + 1))
+            ((x + prodN (Q.take (levelQ + 1)) / 2) % prodN (Q.take (levelQ + 1))))) ≤ levelQ + 1 →
+          ((out : ℕ) : ℤ) % (P.getD j 0 : ℤ)
+              = (centeredRep (prodN (Q.take (levelQ + 1))) x
+                  + ((hpsV (Q.take (levelQ + 1)) (hpsY (Q.take (levelQ + 1)) (residues (Q.take (levelQ + 1))
+                        ((x + prodN (Q.take (levelQ + 1)) / 2) % prodN (Q.take (levelQ + 1))))) : ℤ)
+                    - (fidx Q (hpsY (Q.take (levelQ + 1)) (residues (Q.take (levelQ + 1))
+                        ((x + prodN (Q.take (levelQ + 1)) / 2) % prodN (Q.take (levelQ + 1))))) : ℤ))
+                    * (prodN (Q.take (levelQ + 1)) : ℤ)) % (P.getD j 0 : ℤ)
+            ∧ out < (k + 2) * P.getD j 0)
+      X (row (modUp Q P levelQ levelP polQ) j) :=
+  BasisExt.modUp_limbs Q P levelQ levelP hlQ hlP hC k hk hT polQ X hrows j hj
+
+/-- **`ModDownQPtoQ`**: `X` the integer coefficients in basis `QP`, `Pb = p_0⋯p_levelP`.  Every limb of row `i` of the
+result is `< q_i` and `≡ ⌊(x + ⌊Pb/2⌋)/Pb⌋ − δ (mod q_i)`, `δ = hpsV − v` (`0` for the exact index): the residues of
+`(x − ext([x]_Pb))·Pb⁻¹` of `modDown_err`.  (`hdisj`: no `q_i` is one of the `p_j`.) -/
+theorem modDownQPtoQ_limbs (Q P : List Nat) (levelQ levelP : Nat) (hlQ : levelQ < Q.length)
+    (hlP : levelP < P.length) (hCP : Chain (P.take (levelP + 1))) (k : Nat)
+    (hk : (P.take (levelP + 1)).sum ≤ k * W) (hTQ : Target Q (k + 2))
+    (hdisj : ∀ i, i ≤ levelQ → Q.getD i 0 ∉ P.take (levelP + 1)) (p1Q p1P : Rows) (X : List Nat)
+    (hQ : ∀ i, i ≤ levelQ → row p1Q i = X.map (· % Q.getD i 0))
+    (hP : ∀ j, j ≤ levelP → row p1P j = X.map (· % P.getD j 0)) (i : Nat) (hi : i ≤ levelQ) :
+    List.Forall₂ (fun x out =>
+        fidx P (hpsY (P.take (levelP + 1)) (residues (P.take (levelP + 1))
+            ((x + prodN (P.take (levelP + 1)) / 2) % prodN (P.take (levelP + 1))))) ≤ levelP + 1 →
+          ((out : ℕ) : ℤ) % (Q.getD i 0 : ℤ)
+              = ((((x + prodN (P.take (levelP + 1)) / 2) / prodN (P.take (levelP + 1)) : ℕ) : ℤ)
+                  - ((hpsV (P.take (levelP + 1)) (hpsY (P.take (levelP + 1)) (residues (P.take (levelP + 1))
+                        ((x + prodN (P.take (levelP + 1)) / 2) % prodN (P.take (levelP + 1))))) : ℤ)
+                    - (fidx P (hpsY (P.take (levelP + 1)) (residues (P.take (levelP + 1))
+                        ((x + prodN (P.take (levelP + 1)) / 2) % prodN (P.take (levelP + 1))))) : ℤ)))
+                % (Q.getD i 0 : ℤ)
+            ∧ out < Q.getD i 0)
+      X (row (modDownQPtoQ Q P levelQ levelP p1Q p1P) i) :=
+  BasisExt.modDownQPtoQ_limbs Q P levelQ levelP hlQ hlP hCP k hk hTQ hdisj p1Q p1P X hQ hP i hi
+
+/-- **`ModDownQPtoP`** (division by `Qb = q_0⋯q_levelQ`, result in basis `P`; ROUNDED, cf. repair C02-3). -/
+theorem modDownQPtoP_limbs (Q P : List Nat) (levelQ levelP : Nat) (hlQ : levelQ < Q.length)
+    (hlP : levelP < P.length) (hCQ : Chain (Q.take (levelQ + 1))) (k : Nat)
+    (hk : (Q.take (levelQ + 1)).sum ≤ k * W) (hTP : Target P (k + 2))
+    (hdisj : ∀ j, j ≤ levelP → P.getD j 0 ∉ Q.take (levelQ + 1)) (p1Q p1P : Rows) (X : List Nat)
+    (hQ : ∀ i, i ≤ levelQ → row p1Q i = X.map (· % Q.getD i 0))
+    (hP : ∀ j, j ≤ levelP → row p1P j = X.map (· % P.getD j 0)) (j : Nat) (hj : j ≤ levelP) :
+    List.Forall₂ (fun x out =>
+        fidx Q (hpsY (Q.take (levelQ + 1)) (residues (Q.take (levelQ + 1))
+            ((x + prodN (Q.take (levelQ + 1)) / 2) % prodN (Q.take (levelQ + 1))))) ≤ levelQ + 1 →
+          ((out : ℕ) : ℤ) % (P.getD j 0 : ℤ)
+              = ((((x + prodN (Q.take (levelQ + 1)) / 2) / prodN (Q.take (levelQ + 1)) : ℕ) : ℤ)
+                  - ((hpsV (Q.take (levelQ + 1)) (hpsY (Q.take (levelQ + 1)) (residues (Q.take (levelQ + 1))
+                        ((x + prodN (Q.take (levelQ + 1)) / 2) % prodN (Q.take (levelQ + 1))))) : ℤ)
+                    - (fidx Q (hpsY (Q.take (levelQ + 1)) (residues (Q.take (levelQ + 1))
+                        ((x + prodN (Q.take (levelQ + 1)) / 2) % prodN (Q.take (levelQ + 1))))) : ℤ)))
+                % (P.getD j 0 : ℤ)
+            ∧ out < P.getD j 0)
+      X (row (modDownQPtoP Q P levelQ levelP p1Q p1P) j) :=
+  BasisExt.modDownQPtoP_limbs Q P levelQ levelP hlQ hlP hCQ k hk hTP hdisj p1Q p1P X hQ hP j hj
+
+/-- **`ModDownQPtoQNTT` = NTT ∘ `ModDownQPtoQ` ∘ INTT** (`N = 2^K ≥ 16`): if the rows of `p1Q`, `p1P` are the bit-exact
+forward NTTs of `X mod q_i`, `X mod p_j`, every row `i ≤ levelQ` of the result is the forward NTT of row `i` of
+`modDownQPtoQ` on the coefficient-domain rows `coeffRows`; `modDownQPtoQ_limbs` then describes its `INTT`.  Holds
+for EVERY value of the IEEE index. -/
+theorem modDownQPtoQNTT_eq (TQ TP : Tabs) (Q P : List Nat) (levelQ levelP K : Nat) (hK : 4 ≤ K)
+    (hlQ : levelQ < Q.length) (hlP : levelP < P.length)
+    (hTQ : ∀ i, i ≤ levelQ → NTT.Valid (tab TQ i) K ∧ (tab TQ i).q = Q.getD i 0)
+    (hTP : ∀ j, j ≤ levelP → NTT.Valid (tab TP j) K ∧ (tab TP j).q = P.getD j 0)
+    (hCP : Chain (P.take (levelP + 1))) (k : Nat) (hk : (P.take (levelP + 1)).sum ≤ k * W)
+    (hTgt : Target Q (k + 4)) (p1Q p1P : Rows) (X : List Nat) (hX : X.length = 2 ^ K)
+    (hQ : ∀ i, i ≤ levelQ → row p1Q i = NTT.nttStd (tab TQ i) (X.map (· % Q.getD i 0)))
+    (hP : ∀ j, j ≤ levelP → row p1P j = NTT.nttStd (tab TP j) (X.map (· % P.getD j 0)))
+    (i : Nat) (hi : i ≤ levelQ) :
+    row (modDownQPtoQNTT TQ TP Q P levelQ levelP p1Q p1P) i
+      = NTT.nttStd (tab TQ i)
+          (row (modDownQPtoQ Q P levelQ levelP (coeffRows Q levelQ X) (coeffRows P levelP X)) i) :=
+  BasisExt.modDownQPtoQNTT_eq TQ TP Q P levelQ levelP K hK hlQ hlP hTQ hTP hCP k hk hTgt p1Q p1P X hX hQ hP i hi
+
+-- test (non-vacuity of `modDownQPtoQNTT_eq`): Q = [97], P = [193], N = 16, X = exX (16 coefficients 1000·j + 7)
+example :
+    row (modDownQPtoQNTT (mkTabs 16 [97] [5]) (mkTabs 16 [193] [5]) [97] [193] 0 0
+          [NTT.nttStd (tab (mkTabs 16 [97] [5]) 0) (exX.map (· % 97))]
+          [NTT.nttStd (tab (mkTabs 16 [193] [5]) 0) (exX.map (· % 193))]) 0
+      = NTT.nttStd (tab (mkTabs 16 [97] [5]) 0)
+          (row (modDownQPtoQ [97] [193] 0 0 (coeffRows [97] 0 exX) (coeffRows [193] 0 exX)) 0) :=
+  modDownQPtoQNTT_eq (mkTabs 16 [97] [5]) (mkTabs 16 [193] [5]) [97] [193] 0 0 4 (by decide) (by decide) (by decide)
+    (fun i hi => by have : i = 0 := by omega
+                    subst this; exact ⟨valid16_97, rfl⟩)
+    (fun i hi => by have : i = 0 := by omega
+                    subst this; exact ⟨valid16_193, rfl⟩)
+    ⟨by intro q hq; simp at hq; subst hq; norm_num, by intro q hq; simp at hq; subst hq; rfl,
+     by intro q hq; simp at hq; subst hq; norm_num, by decide⟩
+    1 (by decide)
+    ⟨by intro q hq; simp at hq; subst hq; norm_num, by intro q hq; simp at hq; subst hq; rfl,
+     by intro q hq; simp at hq; subst hq; decide⟩
+    _ _ exX rfl
+    (fun i hi => by have : i = 0 := by omega
+                    subst this; rfl)
+    (fun i hi => by have : i = 0 := by omega
+                    subst this; rfl) 0 (by decide)
+
+-- non-vacuity of the hypotheses: Q = [97, 193, 257] (source), P = [769, 1153] (targets)
+example : Chain [97, 193, 257] ∧ [97, 193, 257].sum ≤ 1 * W ∧ Target [769, 1153] 3 :=
+  ⟨⟨by intro q hq; simp at hq; rcases hq with rfl | rfl | rfl <;> norm_num,
+    by intro q hq; simp at hq; rcases hq with rfl | rfl | rfl <;> rfl,
+    by intro q hq; simp at hq; rcases hq with rfl | rfl | rfl <;> norm_num,
+    by decide⟩, by decide,
+   ⟨by intro q hq; simp at hq; rcases hq with rfl | rfl <;> norm_num,
+    by intro q hq; simp at hq; rcases hq with rfl | rfl <;> rfl,
+    by intro q hq; simp at hq; rcases hq with rfl | rfl <;> decide⟩⟩
+-- test (kernel): the Montgomery tables and one lane of `multSum` for x = 1234567, exact index 2
+example : hpsV [97, 193, 257] (hpsY [97, 193, 257] (residues [97, 193, 257] 1234567)) = 2
+    ∧ multSum (hpsY [97, 193, 257] (residues [97, 193, 257] 1234567)) 2 769 (Gen.GenMRedConstant 769)
+        (genModUpConstants [97, 193, 257] [769, 1153]).vtimesqmodp[0]!
+        (genModUpConstants [97, 193, 257] [769, 1153]).qoverqimodp[0]! % 769 = 1234567 % 769 := by
+  decide +kernel
+-- test (EVALUATION with the compiled IEEE arithmetic, not kernel-checked): the float index of the twin is the
+-- exact one on this input, and the whole `modUpExact` row is `x mod p`
+#guard fidx [97, 193, 257] (hpsY [97, 193, 257] (residues [97, 193, 257] 1234567)) = 2
+#guard modUpExact [97, 193, 257] [769, 1153] (genModUpConstants [97, 193, 257] [769, 1153]) 1
+    [[1234567 % 97], [1234567 % 193], [1234567 % 257]] = [[1234567 % 769 + 769], [1234567 % 1153]]
+
 end BasisExt
 
 /-! ## 3. Gadget decomposition -/
@@ -282,6 +584,175 @@ theorem decompose_noP_counterexample :
     ∧ rnsRecombine Q inv [5, 7] % (prodN Q : Int) = 393 % (prodN Q : Int) := by
   decide
 
+/-! ### 3b. Limb level ⊑ integer level for `Decomposer.DecomposeAndSplit` -/
+
+section DecompLimb
+open Lattigo.Decomp Lattigo.BasisExt
+
+/-- **`DecomposeAndSplit`, single-prime digit** (copy branch, `decompLvl < 0`): no panic; every limb of every Q-row and
+P-row is `≡ digitA q_d (x mod q_d)` — the signed digit with the code's centring (`c ≥ q_d >> 1` is negative:
+range `[−⌈q_d/2⌉, ⌊q_d/2⌋)`, `digitA_bounds`; `≡ x (mod q_d)`, `digitA_emod`) — and `≤` the row's modulus. -/
+theorem decompose_single_limbs (Q P : List Nat) (hasP : Bool) (levelQ levelP nbPi d : Nat)
+    (hdl : decompLvl levelQ nbPi d < 0) (hst : d * nbPi ≤ levelQ) (hlQ : levelQ < Q.length)
+    (hlP : hasP = true → levelP < P.length)
+    (hQ : ∀ m ∈ Q, 1 < m ∧ m < W) (hP : ∀ m ∈ P, 1 < m ∧ m < W)
+    (p0Q prevQ : Rows) (X : List Nat)
+    (hrow : row p0Q (d * nbPi) = X.map (· % Q.getD (d * nbPi) 0)) :
+    ∃ outQ outP, decomposeAndSplit Q P hasP levelQ levelP nbPi d p0Q prevQ = some (outQ, outP)
+      ∧ (∀ i, i ≤ levelQ → List.Forall₂ (fun x out =>
+            ((out : ℕ) : ℤ) % (Q.getD i 0 : ℤ)
+                = digitA (Q.getD (d * nbPi) 0) (x % Q.getD (d * nbPi) 0) % (Q.getD i 0 : ℤ)
+              ∧ out ≤ Q.getD i 0) X (row outQ i))
+      ∧ (hasP = true → ∀ j, j ≤ levelP → List.Forall₂ (fun x out =>
+            ((out : ℕ) : ℤ) % (P.getD j 0 : ℤ)
+                = digitA (Q.getD (d * nbPi) 0) (x % Q.getD (d * nbPi) 0) % (P.getD j 0 : ℤ)
+              ∧ out ≤ P.getD j 0) X (row outP j)) :=
+  Decomp.decompose_single_limbs Q P hasP levelQ levelP nbPi d hdl hst hlQ hlP hQ hP p0Q prevQ X hrow
+
+/-- the copy branch is taken exactly when the digit has one modulus: for a valid digit index `decompLvl + 2` is the
+number of moduli `min(d·nbPi + nbPi, levelQ+1) − d·nbPi` of the digit -/
+theorem decompLvl_eq (levelQ nbPi d : Nat) (hnb : 0 < nbPi) (hd : d * nbPi ≤ levelQ) :
+    decompLvl levelQ nbPi d = ((min (d * nbPi + nbPi) (levelQ + 1) - d * nbPi : ℕ) : ℤ) - 2 :=
+  Decomp.decompLvl_eq levelQ nbPi d hnb hd
+
+/-- **`DecomposeAndSplit`, multi-prime digit** (HPS branch with `reconstructRNSCentered`; `Q_d = Π dasGrp` the digit
+modulus, `≥ 2` primes): no panic; every limb of every Q-row OUTSIDE the digit's own moduli and of every P-row
+`j ≤ levelP` is `≡ centeredRep Q_d x + δ·Q_d (mod m)` (`δ = hpsV − v`, `v = fidx` the IEEE index, named hypothesis
+`v ≤ #moduli`) and `< (k+2)·m`.  For the exact index the value is THE centred digit `d = centeredRep Q_d x`:
+`d ≡ x (mod Q_d)`, `−⌊Q_d/2⌋ ≤ d < Q_d − ⌊Q_d/2⌋` (`centeredRep_emod`, `centeredRep_bounds`). -/
+theorem decompose_multi_limbs (Q P : List Nat) (hasP : Bool) (levelQ levelP nbPi d : Nat) (hnb : 0 < nbPi)
+    (hst : d * nbPi ≤ levelQ) (hlQ : levelQ < Q.length)
+    (hcnt : 2 ≤ min (d * nbPi + nbPi) (levelQ + 1) - d * nbPi)
+    (hC : Chain (dasGrp Q levelQ nbPi d)) (k : Nat) (hk : (dasGrp Q levelQ nbPi d).sum ≤ k * W)
+    (hTQ : Target Q (k + 1)) (hTP : Target P (k + 1)) (hlP : levelP + 1 ≤ nbPi) (hnP : nbPi ≤ P.length)
+    (p0Q prevQ : Rows) (X : List Nat)
+    (hrows : ∀ i, d * nbPi ≤ i → i < min (d * nbPi + nbPi) (levelQ + 1) →
+      row p0Q i = X.map (· % Q.getD i 0)) :
+    ∃ outQ outP, decomposeAndSplit Q P hasP levelQ levelP nbPi d p0Q prevQ = some (outQ, outP)
+      ∧ (∀ j, j ≤ levelQ → (j < d * nbPi ∨ min (d * nbPi + nbPi) (levelQ + 1) ≤ j) →
+          List.Forall₂ (fun x out =>
+            fidx (dasGrp Q levelQ nbPi d) (dasY (dasGrp Q levelQ nbPi d) x) ≤ (dasGrp Q levelQ nbPi d).length →
+              ((out : ℕ) : ℤ) % (Q.getD j 0 : ℤ)
+                  = (centeredRep (prodN (dasGrp Q levelQ nbPi d)) x
+                      + ((hpsV (dasGrp Q levelQ nbPi d) (dasY (dasGrp Q levelQ nbPi d) x) : ℤ)
+                          - (fidx (dasGrp Q levelQ nbPi d) (dasY (dasGrp Q levelQ nbPi d) x) : ℤ))
+                        * (prodN (dasGrp Q levelQ nbPi d) : ℤ)) % (Q.getD j 0 : ℤ)
+                ∧ out < (k + 2) * Q.getD j 0) X (row outQ j))
+      ∧ (∀ j, j ≤ levelP →
+          List.Forall₂ (fun x out =>
+            fidx (dasGrp Q levelQ nbPi d) (dasY (dasGrp Q levelQ nbPi d) x) ≤ (dasGrp Q levelQ nbPi d).length →
+              ((out : ℕ) : ℤ) % (P.getD j 0 : ℤ)
+                  = (centeredRep (prodN (dasGrp Q levelQ nbPi d)) x
+                      + ((hpsV (dasGrp Q levelQ nbPi d) (dasY (dasGrp Q levelQ nbPi d) x) : ℤ)
+                          - (fidx (dasGrp Q levelQ nbPi d) (dasY (dasGrp Q levelQ nbPi d) x) : ℤ))
+                        * (prodN (dasGrp Q levelQ nbPi d) : ℤ)) % (P.getD j 0 : ℤ)
+                ∧ out < (k + 2) * P.getD j 0) X (row outP j)) :=
+  Decomp.decompose_multi_limbs Q P hasP levelQ levelP nbPi d hnb hst hlQ hcnt hC k hk hTQ hTP hlP hnP
+    p0Q prevQ X hrows
+
+/-- the centred digit: `≡ x (mod Q_d)` and `|d| ≤ Q_d/2` (for odd `Q_d`: `−(Q_d−1)/2 ≤ d ≤ (Q_d−1)/2`) -/
+theorem centred_digit (Qd x : Nat) (hQ : 0 < Qd) :
+    centeredRep Qd x % (Qd : ℤ) = (x : ℤ) % (Qd : ℤ)
+    ∧ -((Qd / 2 : ℕ) : ℤ) ≤ centeredRep Qd x ∧ centeredRep Qd x < (Qd : ℤ) - ((Qd / 2 : ℕ) : ℤ) :=
+  ⟨centeredRep_emod Qd x, centeredRep_bounds Qd x hQ⟩
+
+/-- the copy branch's digit: `≡ c (mod q_d)`, range `[−(q_d − ⌊q_d/2⌋), ⌊q_d/2⌋)` — for odd `q_d` the value
+`(q_d−1)/2` is represented by `−(q_d+1)/2`, half a unit beyond `q_d/2` (centring `coeff ≥ q_d >> 1`,
+ring/basis_extension.go:421; the HPS branch centres symmetrically). -/
+theorem copy_digit (qd c : Nat) (hc : c < qd) :
+    digitA qd c % (qd : ℤ) = (c : ℤ) % (qd : ℤ)
+    ∧ -((qd : ℤ) - ((qd / 2 : ℕ) : ℤ)) ≤ digitA qd c ∧ digitA qd c < ((qd / 2 : ℕ) : ℤ) :=
+  ⟨digitA_emod qd c, digitA_bounds qd c hc⟩
+
+/-- **the digits `DecomposeAndSplit` writes recombine** (`rns_digits_recombine` applies): with digit moduli `Qs`
+(pairwise coprime) and ANY index errors `δ`, the values `centeredRep Q_i x + δ_i·Q_i` the limbs are congruent to
+satisfy `Σ d_i·(Q/Q_i)·[(Q/Q_i)⁻¹]_{Q_i} ≡ x (mod Q)`. -/
+theorem decompose_digits_recombine (Qs : List Nat) (inv : Nat → Nat) (x : Nat) (δ : Nat → ℤ)
+    (hc : Qs.Pairwise Nat.Coprime) (hpos : ∀ Q ∈ Qs, 0 < Q)
+    (hinv : ∀ Q ∈ Qs, ((prodN Qs / Q) * inv Q) % Q = 1) :
+    rnsRecombine Qs inv (Qs.map fun Qi => centeredRep Qi x + δ Qi * (Qi : ℤ)) % (prodN Qs : ℤ)
+      = (x : ℤ) % (prodN Qs : ℤ) :=
+  digits_recombine Qs inv x δ hc hpos hinv
+
+theorem decompose_digits_recombine_single (Qs : List Nat) (inv : Nat → Nat) (x : Nat)
+    (hc : Qs.Pairwise Nat.Coprime) (hpos : ∀ Q ∈ Qs, 0 < Q)
+    (hinv : ∀ Q ∈ Qs, ((prodN Qs / Q) * inv Q) % Q = 1) :
+    rnsRecombine Qs inv (Qs.map fun qd => digitA qd (x % qd)) % (prodN Qs : ℤ)
+      = (x : ℤ) % (prodN Qs : ℤ) :=
+  digits_recombine_single Qs inv x hc hpos hinv
+
+/-- **reduced NTT of an unreduced row** (`N = 2^K ≥ 16`, entries `< M`, `M + 4q ≤ 2^64`) = NTT of the row mod `q` -/
+theorem nttStd_unreduced {T : NTT.Tables} {K : Nat} (hT : NTT.Valid T K) (hK : 4 ≤ K) (M : Nat)
+    (hM : M + 4 * T.q ≤ W) (a : List Nat) (ha : ∀ x ∈ a, x < M) :
+    NTT.nttStd T a = NTT.nttStd T (a.map (· % T.q)) :=
+  Decomp.nttStd_unreduced hT hK M hM a ha
+
+/-- ranges of the HPS branch for EVERY value of the IEEE index: limbs `< (k+2)·m` -/
+theorem decompose_multi_lt (Q P : List Nat) (hasP : Bool) (levelQ levelP nbPi d : Nat) (hnb : 0 < nbPi)
+    (hst : d * nbPi ≤ levelQ) (hlQ : levelQ < Q.length)
+    (hcnt : 2 ≤ min (d * nbPi + nbPi) (levelQ + 1) - d * nbPi)
+    (hC : Chain (dasGrp Q levelQ nbPi d)) (k : Nat) (hk : (dasGrp Q levelQ nbPi d).sum ≤ k * W)
+    (hTQ : Target Q (k + 1)) (hTP : Target P (k + 1)) (hlP : levelP + 1 ≤ nbPi) (hnP : nbPi ≤ P.length)
+    (p0Q prevQ : Rows) (X : List Nat)
+    (hrows : ∀ i, d * nbPi ≤ i → i < min (d * nbPi + nbPi) (levelQ + 1) →
+      row p0Q i = X.map (· % Q.getD i 0))
+    (outQ outP : Rows) (hout : decomposeAndSplit Q P hasP levelQ levelP nbPi d p0Q prevQ = some (outQ, outP)) :
+    (∀ j, j ≤ levelQ → (j < d * nbPi ∨ min (d * nbPi + nbPi) (levelQ + 1) ≤ j) →
+        ∀ y ∈ row outQ j, y < (k + 2) * Q.getD j 0)
+    ∧ (∀ j, j ≤ levelP → ∀ y ∈ row outP j, y < (k + 2) * P.getD j 0) :=
+  Decomp.decompose_multi_lt Q P hasP levelQ levelP nbPi d hnb hst hlQ hcnt hC k hk hTQ hTP hlP hnP p0Q prevQ X
+    hrows outQ outP hout
+
+/-- **`DecomposeNTT` succeeds** when `DecomposeAndSplit` does for every digit, and digit `d` is `dnOut` of that output
+(`dnInv`/`dnNtt`: the coefficient-domain / NTT-domain form of the input `c2`). -/
+theorem decomposeNTT_some (TQ TP : Tabs) (Q P : List Nat) (levelQ levelP nbPi size : Nat) (isNTT : Bool)
+    (c2 : Rows) (A B : Nat → Rows)
+    (h : ∀ d, d < size → decomposeAndSplit Q P true levelQ levelP nbPi d (dnInv TQ levelQ isNTT c2)
+        ((List.range (levelQ + 1)).map fun _ => []) = some (A d, B d)) :
+    decomposeNTT TQ TP Q P levelQ levelP nbPi size isNTT c2
+      = some ((List.range size).map fun d =>
+          dnOut TQ TP levelQ levelP nbPi d (dnNtt TQ levelQ isNTT c2) (A d) (B d)) :=
+  Decomp.decomposeNTT_some TQ TP Q P levelQ levelP nbPi size isNTT c2 A B h
+
+/-- **rows of a digit of `DecomposeNTT`** (`N ≥ 16`): inside the digit's own moduli the NTT-domain input row; elsewhere
+the reduced forward NTT of `limb mod q` of the (unreduced, `< M q`) limbs `DecomposeAndSplit` wrote. -/
+theorem decomposeNTT_rows (TQ TP : Tabs) (Q P : List Nat) (levelQ levelP nbPi d K : Nat) (hK : 4 ≤ K)
+    (ntt a b : Rows)
+    (hTQ : ∀ i, i ≤ levelQ → NTT.Valid (tab TQ i) K ∧ (tab TQ i).q = Q.getD i 0)
+    (hTP : ∀ j, j ≤ levelP → NTT.Valid (tab TP j) K ∧ (tab TP j).q = P.getD j 0)
+    (M : Nat → Nat)
+    (ha : ∀ x, x ≤ levelQ → ¬ (d * nbPi ≤ x ∧ x < d * nbPi + nbPi) →
+      M (Q.getD x 0) + 4 * Q.getD x 0 ≤ W ∧ ∀ y ∈ row a x, y < M (Q.getD x 0))
+    (hb : ∀ j, j ≤ levelP → M (P.getD j 0) + 4 * P.getD j 0 ≤ W ∧ ∀ y ∈ row b j, y < M (P.getD j 0)) :
+    (∀ x, x ≤ levelQ → row (dnOut TQ TP levelQ levelP nbPi d ntt a b).1 x =
+        if d * nbPi ≤ x ∧ x < d * nbPi + nbPi then row ntt x
+        else NTT.nttStd (tab TQ x) ((row a x).map (· % Q.getD x 0)))
+    ∧ (∀ j, j ≤ levelP → row (dnOut TQ TP levelQ levelP nbPi d ntt a b).2 j =
+        NTT.nttStd (tab TP j) ((row b j).map (· % P.getD j 0))) :=
+  dnOut_rows TQ TP Q P levelQ levelP nbPi d K hK ntt a b hTQ hTP M ha hb
+
+-- test (non-vacuity of `nttStd_unreduced`): q = 97, N = 16, a row with entries up to 3q − 1
+example : NTT.nttStd (NTT.mkTables 16 97 32 5) ((List.range 16).map (· * 19 + 3))
+    = NTT.nttStd (NTT.mkTables 16 97 32 5) (((List.range 16).map (· * 19 + 3)).map (· % 97)) :=
+  nttStd_unreduced valid16_97 (by decide) 291 (by decide) ((List.range 16).map (· * 19 + 3)) (by decide)
+
+-- non-vacuity: Q = [97, 193, 257, 769], P = [1153, 12289], nbPi = 2: digit 0 = {97, 193} (HPS branch)
+example : (0 : Nat) < 2 ∧ 0 * 2 ≤ 3 ∧ 2 ≤ min (0 * 2 + 2) (3 + 1) - 0 * 2
+    ∧ dasGrp [97, 193, 257, 769] 3 2 0 = [97, 193] ∧ Chain [97, 193] ∧ [97, 193].sum ≤ 1 * W
+    ∧ decompLvl 3 2 0 = 0 :=
+  ⟨by decide, by decide, by decide, by decide, chain_97_193, by decide, by decide⟩
+-- … and nbPi = 1 (copy branch): decompLvl 3 1 2 = −1
+example : decompLvl 3 1 2 < 0 := by decide
+-- test (kernel): one limb of the copy branch: x ≡ 150 (mod 193) is negative (150 ≥ 96): −43 ≡ 54 (mod 97)
+example : splitLimb 193 97 150 = 54 ∧ digitA 193 150 = -43 := by decide
+-- test (EVALUATION, IEEE index included): digit 0 of x = 9361 = ⌊Q_0/2⌋ + 1 (centred value −9360) in basis QP
+#guard decomposeAndSplit [97, 193, 257, 769] [1153, 12289] true 3 1 2 0
+    ([97, 193, 257, 769].map fun q => [9361 % q]) [[0], [0], [0], [0]]
+  = some ([[49], [97], [257 - 9360 % 257], [769 - 9360 % 769]],
+          [[1153 - 9360 % 1153], [12289 - 9360]])
+
+end DecompLimb
+
 end Lattigo.Props.C02
 
 #print axioms Lattigo.Props.C02.divFloor_residues
@@ -310,3 +781,29 @@ end Lattigo.Props.C02
 #print axioms Lattigo.Props.C02.maskVec_eq
 #print axioms Lattigo.Props.C02.rns_digits_recombine
 #print axioms Lattigo.Props.C02.decompose_noP_counterexample
+#print axioms Lattigo.Props.C02.divFloorNTT_limbs
+#print axioms Lattigo.Props.C02.divRoundNTT_limbs
+#print axioms Lattigo.Props.C02.divFloorManyNTT_limbs
+#print axioms Lattigo.Props.C02.divRoundManyNTT_limbs
+#print axioms Lattigo.Props.C02.divFloorNTT_coeffs
+#print axioms Lattigo.Props.C02.divFloorNTT_small_ring_counterexample
+#print axioms Lattigo.Props.C02.multSum_limb
+#print axioms Lattigo.Props.C02.reconstruct_limb
+#print axioms Lattigo.Props.C02.modUpExact_limbs
+#print axioms Lattigo.Props.C02.modUpExact_limbs_3p
+#print axioms Lattigo.Props.C02.modUpExact_exact
+#print axioms Lattigo.Props.C02.modUp_limbs
+#print axioms Lattigo.Props.C02.modDownQPtoQ_limbs
+#print axioms Lattigo.Props.C02.modDownQPtoP_limbs
+#print axioms Lattigo.Props.C02.modDownQPtoQNTT_eq
+#print axioms Lattigo.Props.C02.decompose_single_limbs
+#print axioms Lattigo.Props.C02.decompLvl_eq
+#print axioms Lattigo.Props.C02.decompose_multi_limbs
+#print axioms Lattigo.Props.C02.decompose_multi_lt
+#print axioms Lattigo.Props.C02.nttStd_unreduced
+#print axioms Lattigo.Props.C02.decomposeNTT_some
+#print axioms Lattigo.Props.C02.decomposeNTT_rows
+#print axioms Lattigo.Props.C02.centred_digit
+#print axioms Lattigo.Props.C02.copy_digit
+#print axioms Lattigo.Props.C02.decompose_digits_recombine
+#print axioms Lattigo.Props.C02.decompose_digits_recombine_single
